@@ -56,6 +56,7 @@ type failure struct {
 	plan  string // path of the plan file ("" if it must be materialised)
 	race  string // race report text
 	crash string
+	replayPath string // set when the failing history is already on disk (no plan to minimise)
 }
 
 type jobResult struct {
@@ -538,7 +539,14 @@ func reportFailures(cfg *config, all []failure, known []knownFinding, exit *int,
 	}
 	groups := map[string]*group{}
 	var order []string
+	sibling := map[string]int{}
 	for _, f := range all {
+		if f.viol.Property != "" && f.viol.Property != cfg.prop {
+			// a genuine finding, but of a sibling property that has its own
+			// check; this check decides cfg.prop only
+			sibling[f.viol.Property+" "+f.viol.Class]++
+			continue
+		}
 		id := f.viol.Class + "|" + f.viol.Key
 		g := groups[id]
 		if g == nil {
@@ -549,6 +557,14 @@ func reportFailures(cfg *config, all []failure, known []knownFinding, exit *int,
 		g.fails = append(g.fails, f)
 	}
 	sort.Strings(order)
+	var sk []string
+	for k := range sibling {
+		sk = append(sk, k)
+	}
+	sort.Strings(sk)
+	for _, k := range sk {
+		fmt.Printf("NOTE: %d run(s) hit a finding that belongs to another property (decided by that property's own check): %s\n", sibling[k], k)
+	}
 	var out []reportedViolation
 	budgetEnd := time.Now().Add(8 * time.Minute)
 	for gi, id := range order {
@@ -557,6 +573,23 @@ func reportFailures(cfg *config, all []failure, known []knownFinding, exit *int,
 		if gi >= 12 {
 			// still report, without minimisation
 			fmt.Printf("  (further failing class %s: %d runs, not minimised)\n", id, len(g.fails))
+			continue
+		}
+		if f.replayPath != "" {
+			v := f.viol
+			k := matchKnown(known, v)
+			out = append(out, reportedViolation{Class: v.Class, Key: v.Key, Replay: f.replayPath, Known: k != nil, Count: len(g.fails)})
+			if k != nil {
+				fmt.Printf("KNOWN-FINDING: property=%s %s\n", cfg.prop, k.text)
+				continue
+			}
+			*nviol++
+			*exit = 1
+			fmt.Printf("VIOLATION property=%s replay=%s\n", cfg.prop, f.replayPath)
+			fmt.Printf("  class=%s key=%s\n", v.Class, v.Key)
+			for _, l := range strings.Split(trim(v.Detail, 2500), "\n") {
+				fmt.Println("  | " + l)
+			}
 			continue
 		}
 		p, err := obtainPlan(cfg, &f)
